@@ -2,6 +2,9 @@
 package main
 
 import (
+	"os"
+	"strings"
+
 	"mangosverif/l1kit"
 	"mangosverif/l1run"
 
@@ -114,6 +117,12 @@ func kind(id int, name string, mk func() mangos.ProtocolBase) *l1kit.Kind {
 			}
 			return Op{K: "drop", A: g.Pick(ps)}, true
 		case w < 40:
+			if raw && g.Held != nil {
+				return Op{K: "send", S: 2}, true // the message of which the application kept a reference, once more
+			}
+			if raw && r.Intn(4) == 0 {
+				return Op{K: "send", S: 1}, true
+			}
 			return Op{K: "send"}, true
 		case w < 52:
 			return Op{K: "recv"}, g.BlockedRecvs() < 3
@@ -184,6 +193,18 @@ func main() {
 		kind(3, "star", star.NewProtocol), kind(4, "xstar", xstar.NewProtocol),
 	}
 	addScripts(kinds)
+	// L1_KINDS=star,xstar: only these (C09 drives the STAR relay rule at the hop limit)
+	if v := os.Getenv("L1_KINDS"); v != "" {
+		var sel []*l1kit.Kind
+		for _, k := range kinds {
+			for _, n := range strings.Split(v, ",") {
+				if n == k.Name {
+					sel = append(sel, k)
+				}
+			}
+		}
+		kinds = sel
+	}
 	l1run.Main(l1kit.Gen(kinds))
 }
 
